@@ -8,6 +8,7 @@
 #include <string.h>
 #include <unistd.h>
 #include <sys/mman.h>
+#include <sys/stat.h>
 #include <ucontext.h>
 #include <map>
 #include <algorithm>
@@ -67,6 +68,7 @@ struct Block {
 	int kind = 0;
 	int state = ST_LIVE;
 	int op_index = -1, req_ord = 0, owner_class = 0, task = 0;
+	uint64_t fileid = 0;        // != 0: view of a file / shared-memory object (dev, inode), mapped by the real kernel at its own address
 	const char *op_name = "";
 	bool arena = false;
 	int zone = 0;              // 0: run zone (wiped after every run), 1: model zone (persistent)
@@ -849,7 +851,25 @@ extern "C" void *__wrap_mmap(void *addr, size_t len, int prot, int flags, int fd
 	if (fail) errno = ENOMEM;
 	else {
 		Block *b = nullptr;
-		if (kArena && (flags & MAP_FIXED) && addr) {
+		if (fd >= 0 && !(flags & MAP_ANONYMOUS)) {
+			// a view of a file or shared-memory object (memfd, shm): the object's identity matters (two views alias the same
+			// pages), so the real kernel maps it; the block is tracked for the ledger and the page-protection model
+			void *p = mmap(addr, len, prot, flags, fd, off);
+			if (p == MAP_FAILED) { seam_yield(rt::SITE_MMAP); return MAP_FAILED; }
+			struct stat sb; uint64_t fid = 1;
+			if (fstat(fd, &sb) == 0) fid = rt::mix64((uint64_t)sb.st_dev, (uint64_t)sb.st_ino) | 1;
+			Block nb;
+			nb.user = (uintptr_t)p; nb.size = len; nb.kind = kind; nb.npages = (len + PG - 1) / PG; nb.fileid = fid;
+			nb.op_index = ctx->op_index; nb.req_ord = ctx->requests; nb.op_name = ctx->op_name; nb.owner_class = ctx->owner_class; nb.task = ctx->task;
+			b = &(g_blocks[(uintptr_t)p] = std::move(nb));
+			b->prot.assign(b->npages, 0); b->hprot.assign(b->npages, -1);
+			// the same object writable through one live view and executable through another is W+X in all but the address
+			if (b->owner_class == OWN_CACHE || b->owner_class == OWN_VM_SECURE) {
+				int all = prot;
+				for (auto &kv : g_blocks) if (kv.second.fileid == fid && kv.second.state == ST_LIVE && &kv.second != b) for (uint8_t pp : kv.second.prot) all |= pp;
+				if ((all & PROT_WRITE) && (all & PROT_EXEC) && !((prot & PROT_WRITE) && (prot & PROT_EXEC))) anomaly("WX", std::string("one object mapped writable and executable at the same time (aliased views) owner=") + owner_of(*b));
+			}
+		} else if (kArena && (flags & MAP_FIXED) && addr) {
 			std::string clobbered; Block *own = nullptr;
 			b = arena_alloc_at((uintptr_t)addr, len, kind, ctx, &clobbered, &own);
 			if (!b && own) { // fixed mapping inside a live mapping of the same thread: protection change of that part
@@ -916,7 +936,7 @@ extern "C" int __wrap_munmap(void *addr, size_t len) {
 		snprintf(buf, sizeof buf, "length_mismatch owner=%s %s", owner_of(*b).c_str(), pages < b->npages ? "short" : "long");
 		anomaly("BAD_MUNMAP", buf);
 		if (pages < b->npages) {
-			if (kArena) arena_protect(b->page_lo, pages, PROT_NONE); else munmap(addr, pages * PG);
+			if (b->arena) arena_protect(b->page_lo, pages, PROT_NONE); else munmap(addr, pages * PG);
 			g_ledger.map_bytes -= pages * PG;
 			for (size_t i = 0; i < pages; ++i) b->prot[i] = 0;
 			return 0;
@@ -924,7 +944,7 @@ extern "C" int __wrap_munmap(void *addr, size_t len) {
 	}
 	--g_ledger.maps; g_ledger.map_bytes -= b->npages * PG;
 	++ctx->frees;
-	if (kArena) arena_free(*b);
+	if (b->arena) arena_free(*b);
 	else { munmap(addr, b->npages * PG); g_blocks.erase(b->user); }
 	seam_yield(rt::SITE_MUNMAP);
 	return 0;
@@ -958,7 +978,7 @@ extern "C" int __wrap_mprotect(void *addr, size_t len, int prot) {
 		anomaly("BAD_MPROTECT", "not_a_live_library_mapping at=" + describe_addr(addr));
 		errno = ENOMEM; return -1;
 	}
-	uintptr_t base = kArena ? b->page_lo : b->user;
+	uintptr_t base = b->arena ? b->page_lo : b->user;
 	uintptr_t lo = (uintptr_t)addr, hi = lo + len;
 	if ((lo & (PG - 1)) || lo < base) { anomaly("BAD_MPROTECT", "unaligned owner=" + owner_of(*b)); errno = EINVAL; return -1; }
 	hi = (hi + PG - 1) & ~(PG - 1);
@@ -1021,6 +1041,36 @@ extern "C" sighandler_t __wrap_signal(int sig, sighandler_t h) {
 	rt::g_log.ev("signal", ctx->task, ctx->op_index, (uint64_t)sig, 1);
 	sighandler_t r = signal(sig, h);
 	seam_yield(rt::SITE_SIGACTION);
+	return r;
+}
+
+// ------------------------------------------------------------------ named / anonymous memory objects
+#include <fcntl.h>
+extern "C" int __wrap_shm_open(const char *name, int oflag, mode_t mode) {
+	OpCtx *ctx = t_ctx;
+	if (!ctx || t_in_seam || ctx->model_mode) return shm_open(name, oflag, mode);
+	InSeam g;
+	rt::g_log.ev("shm_open", ctx->task, ctx->op_index, rt::fnv64(name, strlen(name)), (uint64_t)oflag);
+	int r = shm_open(name, oflag, mode);
+	seam_yield(rt::SITE_MMAP);
+	return r;
+}
+extern "C" int __wrap_shm_unlink(const char *name) {
+	OpCtx *ctx = t_ctx;
+	if (!ctx || t_in_seam || ctx->model_mode) return shm_unlink(name);
+	InSeam g;
+	rt::g_log.ev("shm_unlink", ctx->task, ctx->op_index, rt::fnv64(name, strlen(name)));
+	int r = shm_unlink(name);
+	seam_yield(rt::SITE_MUNMAP);
+	return r;
+}
+extern "C" int __wrap_memfd_create(const char *name, unsigned int flags) {
+	OpCtx *ctx = t_ctx;
+	if (!ctx || t_in_seam || ctx->model_mode) return memfd_create(name, flags);
+	InSeam g;
+	rt::g_log.ev("memfd_create", ctx->task, ctx->op_index, (uint64_t)flags);
+	int r = memfd_create(name, flags);
+	seam_yield(rt::SITE_MMAP);
 	return r;
 }
 
